@@ -23,7 +23,7 @@ PROFILES = {
                   nested=0.15, ctx=0.0, dcal=0.2, dyn=0.75, desc=0.0, arbitrary_names=0.1,
                   criteria_forms=("cmp", "list"), aligned=0.5),
     "flat": dict(max_containers=5, max_depth=2, fanout=4, fields=(1, 6), kinds=("int", "int", "float", "enum", "bool",
-                 "str", "bin", "time", "calint"), nested=0.0, ctx=0.0, dcal=0.3, dyn=0.0, desc=0.0,
+                 "str", "bin", "time", "calint", "lenint"), nested=0.0, ctx=0.2, dcal=0.3, dyn=0.3, desc=0.0,
                  arbitrary_names=0.0, criteria_forms=("cmp",), aligned=0.8, flat=True),
     "lengths": dict(max_containers=4, max_depth=2, fanout=2, fields=(1, 4), kinds=("str", "bin", "bin", "lenint", "int",
                     "float"), nested=0.2, ctx=0.0, dcal=0.15, dyn=0.8, desc=0.0, arbitrary_names=0.1,
@@ -291,8 +291,6 @@ class Gen:
                 b = "\x00".encode(xdoc.codec_for(enc))
             if len(b) != xdoc.unit_bytes(enc) and cs != "UTF-8":
                 b = "\x00".encode(xdoc.codec_for(enc))
-            if cs == "UTF-8" and len(b) != 1:
-                b = b"\x00"
             enc["delim"] = {"t": "term", "hex": b.hex().upper() if self.chance(0.5) else b.hex()}
         elif kind == "lead":
             enc["delim"] = {"t": "lead", "bits": d(st.sampled_from([8, 8, 16, 16, 4, 12, 32] if not self.aligned_doc
@@ -331,8 +329,10 @@ class Gen:
             which = d(st.sampled_from(["int", "int", "int", "float", "str"]))
             if which == "str" and not self.p.get("small_ints"):
                 nbytes = d(st.integers(1, 2))
-                pt["enc"] = {"k": "str", "charset": d(st.sampled_from(["US-ASCII", "ISO-8859-1", "UTF-8"])), "order": None,
-                             "len": {"t": "fixed", "bits": 8 * nbytes}, "delim": None}
+                cs = d(st.sampled_from(["US-ASCII", "ISO-8859-1", "UTF-8", "UTF-16", "UTF-16BE", "UTF-16LE", "UTF-32"]))
+                unit = 2 if cs.startswith("UTF-16") else 4 if cs.startswith("UTF-32") else 1
+                pt["enc"] = {"k": "str", "charset": cs, "order": d(st.sampled_from([BE, LE])) if cs in xdoc.MULTIBYTE else None,
+                             "len": {"t": "fixed", "bits": 8 * nbytes * unit}, "delim": None}
                 keys = d(st.lists(st.text("ABCab01", min_size=nbytes, max_size=nbytes), min_size=1, max_size=4, unique=True))
                 pt["enum"] = [[k, f"S_{k}"] for k in keys]
             elif which == "float" and not self.p.get("small_ints"):
@@ -705,7 +705,7 @@ def string_bits(draw, pt, enc, n):
         t = bytes.fromhex(d["hex"])
         how = draw(st.sampled_from(["present", "present", "present", "absent", "misaligned"]))
         body = enc_text(max(0, nbytes - len(t)))
-        body = body.replace(t, b"") if u == 1 else body
+        body = body.replace(t, b"") if u == 1 else body   # (u == 1 covers UTF-8 with terminators of any length)
         if how == "present":
             raw = body + t
         elif how == "misaligned" and u > 1:
